@@ -158,7 +158,8 @@ where
 fn extract_bound_from_tracking(tracking: Tracking) -> (i64, ChronyClockStatus) {
     let root_delay: f64 = tracking.root_delay.into();
     let root_dispersion: f64 = tracking.root_dispersion.into();
-    let current_correction: f64 = tracking.current_correction.into();
+    // The clock error bound is built from the magnitude of the offset, whatever its sign is.
+    let current_correction: f64 = f64::from(tracking.current_correction).abs();
 
     // Compute the clock error bound *at the time chrony reported the tracking data*. Remember
     // that the root dispersion reported by chrony is at the time the tracking data is
